@@ -8,6 +8,7 @@ extern "C" {
 
 /* ---- allocation tracker (link-time --wrap of malloc/calloc/realloc/free) ----
  * Only blocks (re)allocated while a shim_* library call is in progress are tracked. */
+void trk_set_inplace(int on); /* 1: realloc leaves a shrinking block (and one growing back within its room) where it is */
 void trk_reset(void);                  /* forget everything (start of a case) */
 size_t trk_live_count(void);           /* number of live tracked blocks */
 size_t trk_live_bytes(void);           /* sum of requested sizes of live tracked blocks */
